@@ -23,7 +23,7 @@ func pickVersion(t *sim.Tape) gmsl.RoomVersion {
 		switch v {
 		case "10", "11", "12":
 			w = 3
-		case "1", "8", "9":
+		case "1", "4", "8", "9":
 			w = 2
 		}
 		for i := 0; i < w; i++ {
